@@ -103,6 +103,14 @@ def single_faults(tc: bool, tier: str) -> List[List]:
     for t in (-2 ** 31, -1, 10000, 2 ** 31 - 2, 2 ** 31 - 1):
         for mt in (P.MT_SUBSCRIBE, P.MT_UNSUBSCRIBE, P.MT_PAUSE_SUBSCRIPTION, P.MT_RESUME_SUBSCRIPTION):
             out.append(["raw", "connected", _frame(tc, mt, P.p_sub(t)).hex(), "none"])
+    # every control request from every protocol position (state left over from earlier requests)
+    for pos in ("subscribed", "suball", "logger"):
+        for mt in (P.MT_SUBSCRIBE, P.MT_UNSUBSCRIBE, P.MT_PAUSE_SUBSCRIPTION, P.MT_RESUME_SUBSCRIPTION):
+            for t in (T1, 1002, 1009, 2 ** 31 - 1):
+                out.append(["raw", pos, _frame(tc, mt, P.p_sub(t)).hex(), "none"])
+        out.append(["raw", pos, _frame(tc, P.MT_CONNECT, P.p_connect(1, 0)).hex(), "none"])
+        out.append(["raw", pos, _frame(tc, P.MT_CLIENT_SET_NAME, P.P_NAME.pack(b"n" * 31)).hex(), "none"])
+        out.append(["raw", pos, _frame(tc, P.MT_MODULE_READY, P.P_READY.pack(-1)).hex(), "none"])
     # publish on a type subscribed with a hostile id so that the subscription table is exercised
     out.append(["raw", "connected", (_frame(tc, P.MT_SUBSCRIBE, P.p_sub(-1)) + _frame(tc, -1, b"")).hex(), "none"])
     # (v) FIN / RST after every byte offset of every protocol frame, in every protocol position
